@@ -1,5 +1,6 @@
 import NopModel.Lemmas.Size
-/-! C06 — GetSize never under-estimates. Property theorems only; lemmas live in Lemmas/. -/
+import NopModel.Lemmas.SizeExact
+/-! C06 — GetSize never under-estimates; buffer writes never exceed capacity. -/
 namespace Nop
 
 /-- For every type term, value and handle-channel state: if `Write` succeeds, the bytes
@@ -8,11 +9,47 @@ theorem C06_size_upper (t : Ty) (v : Val) (h : HChan) (bs : Bytes) (h' : HChan)
     (he : encode t v h = .ok (bs, h')) : bs.length ≤ size t v :=
   encode_length_le t v h bs h' he
 
+/-- ... and exactly `Size(value)` for every type that contains no handles. -/
+theorem C06_size_exact (t : Ty) (hf : t.handleFree = true) (v : Val) (h : HChan) (bs : Bytes) (h' : HChan)
+    (hv : valid t v = true) (he : encode t v h = .ok (bs, h')) : bs.length = size t v :=
+  encode_length_eq t hf v h bs h' hv he
+
+/-- Inside a table the declared size of each entry equals the bytes that follow it (value
+plus padding): the encoded entry list is exactly as long as `Size` computes it — with or
+without handles inside the entries. -/
+theorem C06_entry_frame (ents : List (Nat × Bool)) (ts : List Ty) (vs : List Val) (h : HChan)
+    (bs : Bytes) (h' : HChan) (he : encEntries ents ts vs h = .ok (bs, h')) :
+    bs.length = sizeEntries ents ts vs :=
+  encEntries_length_eq ents ts vs h bs h' he
+
+/-- `Serializer::Write` on a buffer writer with `room` bytes left: `Prepare(Size(v))`, then
+the encoding. -/
+def serializerWrite (room : Nat) (t : Ty) (v : Val) (h : HChan) : Except Err (Bytes × HChan) :=
+  if room < size t v then .error .writeLimitReached else encode t v h
+
+/-- With at least `GetSize(v)` bytes of room `Write` behaves as the plain encoder (it never
+fails for lack of space) and everything it writes fits in the room. -/
+theorem C06_buffer_write_fits (room : Nat) (t : Ty) (v : Val) (h : HChan) (hroom : size t v ≤ room) :
+    serializerWrite room t v h = encode t v h ∧
+    ∀ bs h', encode t v h = .ok (bs, h') → bs.length ≤ room := by
+  refine ⟨by simp [serializerWrite]; omega, ?_⟩
+  intro bs h' he
+  exact Nat.le_trans (encode_length_le t v h bs h' he) hroom
+
+/-- With less room `Write` returns WriteLimitReached and writes nothing. -/
+theorem C06_buffer_write_refused (room : Nat) (t : Ty) (v : Val) (h : HChan) (hroom : room < size t v) :
+    serializerWrite room t v h = .error .writeLimitReached := by
+  simp [serializerWrite, hroom]
+
 /-- non-vacuity: a concrete nested value is encodable and the bound is attained -/
 example : ∃ bs h', encode (.seq .vector (.prod .struct [.int .i16 .plain, .opt (.float false)]))
     (.list [.list [.int (-200), .tag 1 (.int 1065353216)], .list [.int 5, .nil]]) {} = .ok (bs, h')
     ∧ bs.length = 16 := by
   refine ⟨_, _, rfl, ?_⟩
   decide
+
+/-- a handle's `Size` over-estimates by design: 9 bytes are reserved for the reference -/
+example : ∃ bs h', encode (.handle 0 0 .u64) (.int 5) { refs := [.ok 3] } = .ok (bs, h') ∧
+    bs.length = 3 ∧ size (.handle 0 0 .u64) (.int 5) = 11 := ⟨_, _, rfl, by decide, by decide⟩
 
 end Nop
